@@ -3,6 +3,7 @@ Models: Fixture.v (schedules), Graph.v (dependency edges), Sched.v (ordering), T
 import json
 
 import engine
+import propcommon
 import projgen
 import runoracle
 import sim
@@ -32,6 +33,7 @@ def check(run):
         if len(run.samples) < 2:
             run.sample({"fixtures": [(f["name"], f["scope"], f["params"]) for f in c["project"]["fixtures"]],
                         "options": c["options"], "fixture_setups": setups})
+    propcommon.search_failing_schedule(run, cases, runoracle.c03_oracle, results)
     run.coverage["rule"] = ("seeded random projects biased towards fixtures (4 scopes, generator/plain, parameters, injected, "
                             "setup_suite arguments) and hooks with failures in setups, bodies and teardowns; non-trivial = at "
                             "least two fixture evaluations in the run")
